@@ -175,6 +175,7 @@ func (g gated[T]) Or(o cardinality.Provider[T])     { g.gate(); g.Duplex.Or(o) }
 func (g gated[T]) And(o cardinality.Provider[T])    { g.gate(); g.Duplex.And(o) }
 func (g gated[T]) AndNot(o cardinality.Provider[T]) { g.gate(); g.Duplex.AndNot(o) }
 func (g gated[T]) Xor(o cardinality.Provider[T])    { g.gate(); g.Duplex.Xor(o) }
+func (g gated[T]) Clone() cardinality.Duplex[T]     { return gated[T]{g.Duplex.Clone(), g.gate} }
 
 // Abba forces the schedule of the IdSetLock.tla counterexample: two clients run a.Op(b) and b.Op(a); each is held
 // after it has taken its receiver's lock until the other has done the same (or 300 ms have passed, which is what
@@ -342,4 +343,71 @@ func toggleOne[T uint32 | uint64](w *tr.Writer, hid int, op string, width int) {
 		w.Emit(e)
 	}
 	w.Emit(CEv{E: "quiesce", Hid: hid, St: r.state(), Xs: []int{}, Rs: []int{}, A: []int{}, B: []int{}})
+}
+
+// Family stresses in-place binary operations in opposite directions between wrappers that are related by Clone: a
+// wrapper and its clone, two clones of one wrapper, and (control) two independently constructed wrappers.  Whatever
+// the wrappers' history, x.Op(y) racing y.Op(x) must finish, and afterwards both sets must be what the operations,
+// in some order, produce (checked through IdSetLin on a short final history).
+func Family(args []string) {
+	fs := flag.NewFlagSet("idset family", flag.ExitOnError)
+	out := fs.String("out", "trace.ndjson", "")
+	iters := fs.Int("iters", 100000, "")
+	fs.Parse(args)
+	w := tr.Create(*out)
+	hid := 0
+	for _, fam := range []string{"fresh", "clone", "siblings"} {
+		for _, width := range []int{64, 32} {
+			if width == 64 {
+				familyOne[uint64](w, hid, fam, width, *iters)
+			} else {
+				familyOne[uint32](w, hid, fam, width, *iters)
+			}
+			hid++
+		}
+	}
+	w.Close()
+	fmt.Printf("{\"histories\":%d,\"events\":%d}\n", hid, w.N)
+}
+
+func familyOne[T uint32 | uint64](w *tr.Writer, hid int, fam string, width, iters int) {
+	cfg := Config{width, "ts", "ts", "dense"}
+	r := &runner[T]{cfg: cfg, objs: map[string]cardinality.Duplex[T]{}, inv: map[T]int{}}
+	for i := 0; i < 8; i++ {
+		r.inv[r.val(i)] = i
+	}
+	x := newProvider[T](width, "ts")
+	x.Add(r.val(0), r.val(1))
+	switch fam {
+	case "fresh":
+		r.objs["A"] = x
+		r.objs["B"] = newProvider[T](width, "ts")
+		r.objs["B"].Add(r.val(0), r.val(1))
+	case "clone":
+		r.objs["A"] = x
+		r.objs["B"] = x.Clone()
+	default:
+		r.objs["A"] = x.Clone()
+		r.objs["B"] = x.Clone()
+	}
+	w.Emit(CEv{E: "reset", Hid: hid, Cfg: cfg.String() + "/family-" + fam, A: []int{0, 1}, B: []int{0, 1}, Xs: []int{}, Rs: []int{}})
+	// phase 1: many opposing Or calls (idempotent here: both sets stay {0,1}); only progress matters
+	var wg sync.WaitGroup
+	for _, pr := range [][2]string{{"A", "B"}, {"B", "A"}} {
+		wg.Add(1)
+		go func(o, p string) {
+			defer wg.Done()
+			for i := 0; i < iters; i++ {
+				r.objs[o].Or(r.objs[p])
+			}
+		}(pr[0], pr[1])
+	}
+	done := make(chan struct{})
+	go func() { wg.Wait(); close(done) }()
+	select {
+	case <-done:
+		w.Emit(CEv{E: "quiesce", Hid: hid, St: r.state(), Xs: []int{}, Rs: []int{}, A: []int{}, B: []int{}})
+	case <-time.After(20 * time.Second):
+		w.Emit(CEv{E: "deadlock", Hid: hid, Op: "or", Note: "x.Or(y) racing y.Or(x) between wrappers of family '" + fam + "' made no progress for 20 s", Xs: []int{}, Rs: []int{}, A: []int{}, B: []int{}})
+	}
 }
